@@ -187,10 +187,13 @@ type opCase struct {
 	jspell    map[*gen.Val]string
 	jsonStyle int
 	memo      map[string]*leaf
+	// fixed: value nodes whose spelling is part of the case shape and is never re-spelled ("twin"
+	// literals: "1" next to 1, "null" next to null, ...)
+	fixed map[*gen.Val]bool
 }
 
 func newCase(s *gen.Schema, doc *gen.Doc, opName string, vals map[string]*gen.Val) *opCase {
-	return &opCase{schema: s, doc: doc, opName: opName, vals: vals, jspell: map[*gen.Val]string{}, memo: map[string]*leaf{}}
+	return &opCase{schema: s, doc: doc, opName: opName, vals: vals, jspell: map[*gen.Val]string{}, memo: map[string]*leaf{}, fixed: map[*gen.Val]bool{}}
 }
 
 func (c *opCase) mainOp() *gen.Op {
@@ -361,7 +364,7 @@ func (c *opCase) typeClass(named string) string {
 // spellTree walks a value of type t and re-creates each string / number leaf with a fresh denoted
 // value and spellings. site: "lit" (literal in the document) or "json" (variable value).
 func (s *speller) spellTree(v *gen.Val, t *gen.TypeRef, site string) {
-	if v == nil {
+	if v == nil || s.c.fixed[v] {
 		return
 	}
 	switch v.Kind {
